@@ -20,12 +20,14 @@ import (
 	"verifharness/props/c17"
 	"verifharness/props/c18"
 	"verifharness/props/c19"
+	"verifharness/props/c20"
 	"verifharness/props/c21"
 	"verifharness/props/c22"
 	"verifharness/props/c23"
 	"verifharness/props/c24"
 	"verifharness/props/c25"
 	"verifharness/props/c26"
+	"verifharness/props/c27"
 	"verifharness/props/c28"
 	"verifharness/props/c29"
 	"verifharness/props/c30"
@@ -40,6 +42,8 @@ import (
 )
 
 var checks = map[string]driver.Check{
+	"C27": {Level: "exploration", Fn: c27.Run},
+	"C20": {Level: "exploration", Fn: c20.Run},
 	"C09": {Level: "fault_enumeration", Fn: c09.Run},
 	"C08": {Level: "fault_enumeration", Fn: c08.Run},
 	"C11": {Level: "exploration", Fn: c11.Run},
